@@ -108,13 +108,13 @@ namespace awkward {
       int64_t lentags = tags.length();
 
       if (form_.get()->index() == Index::Form::i32) {
-        Index32 current(lentags);
+        Index32 current((int64_t)contents.size());
         Index32 outindex(lentags);
         struct Error err = kernel::UnionArray_regular_index<int8_t, int32_t>(
           kernel::lib::cpu,   // DERIVE
           outindex.data(),
           current.data(),
-          lentags,
+          (int64_t)contents.size(),
           tags.data(),
           lentags);
         util::handle_error(err, "UnionArray", nullptr);
@@ -127,13 +127,13 @@ namespace awkward {
 
       }
       else if (form_.get()->index() == Index::Form::u32) {
-        IndexU32 current(lentags);
+        IndexU32 current((int64_t)contents.size());
         IndexU32 outindex(lentags);
         struct Error err = kernel::UnionArray_regular_index<int8_t, uint32_t>(
           kernel::lib::cpu,   // DERIVE
           outindex.data(),
           current.data(),
-          lentags,
+          (int64_t)contents.size(),
           tags.data(),
           lentags);
         util::handle_error(err, "UnionArray", nullptr);
@@ -145,13 +145,13 @@ namespace awkward {
                                contents).simplify_uniontype(false, false);
       }
       else if (form_.get()->index() == Index::Form::i64) {
-        Index64 current(lentags);
+        Index64 current((int64_t)contents.size());
         Index64 outindex(lentags);
         struct Error err = kernel::UnionArray_regular_index<int8_t, int64_t>(
           kernel::lib::cpu,   // DERIVE
           outindex.data(),
           current.data(),
-          lentags,
+          (int64_t)contents.size(),
           tags.data(),
           lentags);
         util::handle_error(err, "UnionArray", nullptr);
